@@ -47,10 +47,16 @@ type scBeh struct {
 
 func (b *scBeh) bytes() (s string, ends []int) {
 	var sb strings.Builder
-	for _, u := range b.Stream.Units {
+	for i, u := range b.Stream.Units {
 		sb.WriteString(strings.Repeat("\n", u.B))
-		sb.WriteString("data:")
-		sb.WriteString(strings.Repeat("a", u.E-7))
+		if i == 0 && u.E >= 16 {
+			// the first event carries an ID that every later event must still report intact
+			sb.WriteString("id:KEY0\ndata:")
+			sb.WriteString(strings.Repeat("a", u.E-15))
+		} else {
+			sb.WriteString("data:")
+			sb.WriteString(strings.Repeat("a", u.E-7))
+		}
 		sb.WriteString("\n\n")
 		ends = append(ends, sb.Len())
 	}
@@ -198,17 +204,24 @@ func cmdScan(args []string) {
 				}
 				// 2. every delivered event is intact and is the next unit's event: never a truncated one
 				okEvents := true
+				wantID := ""
+				if len(b.Stream.Units) > 0 && b.Stream.Units[0].E >= 16 {
+					wantID = "KEY0"
+				}
 				for i, e := range evs {
 					var want string
 					if i < len(b.Stream.Units) {
 						want = strings.Repeat("a", b.Stream.Units[i].E-7)
+						if i == 0 && wantID != "" {
+							want = strings.Repeat("a", b.Stream.Units[i].E-15)
+						}
 					} else if i == len(b.Stream.Units) && b.Stream.Tail.Kind == "event" {
 						want = strings.Repeat("a", b.Stream.Tail.N-6)
 					} else {
 						okEvents = false
 						break
 					}
-					if e.Data != want || e.Type != "" || e.ID != "" {
+					if e.Data != want || e.Type != "" || e.ID != wantID {
 						okEvents = false
 						break
 					}
